@@ -8,8 +8,6 @@
 package c15
 
 import (
-	"sort"
-
 	"github.com/go-text/typesetting/font"
 )
 
@@ -107,12 +105,12 @@ func stretchPref(desired, v font.Stretch) pref {
 // oblique, so the three-element lists are written with oblique = StyleItalic.
 func stylePref(desired, v font.Style) pref {
 	const oblique = font.StyleItalic
-	var order []font.Style
+	var order [3]font.Style
 	switch desired {
 	case font.StyleItalic: // also covers "oblique"
-		order = []font.Style{font.StyleItalic, oblique, font.StyleNormal}
+		order = [3]font.Style{font.StyleItalic, oblique, font.StyleNormal}
 	default:
-		order = []font.Style{font.StyleNormal, oblique, font.StyleItalic}
+		order = [3]font.Style{font.StyleNormal, oblique, font.StyleItalic}
 	}
 	for i, s := range order {
 		if s == v {
@@ -161,26 +159,39 @@ func weightPref(desired, v font.Weight) pref {
 // sharing the best stretch are kept, then likewise for style, then weight. cands must not be empty.
 func Best(cands []font.Aspect, query font.Aspect) font.Aspect {
 	q := Defaults(query)
-	set := append([]font.Aspect(nil), cands...)
+	var buf [16]font.Aspect
+	set := append(buf[:0], cands...)
 
-	sort.SliceStable(set, func(i, j int) bool {
-		return stretchPref(q.Stretch, set[i].Stretch).before(stretchPref(q.Stretch, set[j].Stretch))
+	sortBy(set, func(a, b font.Aspect) bool {
+		return stretchPref(q.Stretch, a.Stretch).before(stretchPref(q.Stretch, b.Stretch))
 	})
-	set = keep(set, func(a font.Aspect) bool { return a.Stretch == set[0].Stretch })
+	best := set[0].Stretch
+	set = keep(set, func(a font.Aspect) bool { return a.Stretch == best })
 
-	sort.SliceStable(set, func(i, j int) bool {
-		return stylePref(q.Style, set[i].Style).before(stylePref(q.Style, set[j].Style))
+	sortBy(set, func(a, b font.Aspect) bool {
+		return stylePref(q.Style, a.Style).before(stylePref(q.Style, b.Style))
 	})
-	set = keep(set, func(a font.Aspect) bool { return a.Style == set[0].Style })
+	bestStyle := set[0].Style
+	set = keep(set, func(a font.Aspect) bool { return a.Style == bestStyle })
 
-	sort.SliceStable(set, func(i, j int) bool {
-		return weightPref(q.Weight, set[i].Weight).before(weightPref(q.Weight, set[j].Weight))
+	sortBy(set, func(a, b font.Aspect) bool {
+		return weightPref(q.Weight, a.Weight).before(weightPref(q.Weight, b.Weight))
 	})
 	return set[0]
 }
 
+// sortBy is a stable insertion sort (the sets are small; sort.SliceStable allocates).
+func sortBy(set []font.Aspect, before func(a, b font.Aspect) bool) {
+	for i := 1; i < len(set); i++ {
+		for j := i; j > 0 && before(set[j], set[j-1]); j-- {
+			set[j], set[j-1] = set[j-1], set[j]
+		}
+	}
+}
+
+// keep filters set in place.
 func keep(set []font.Aspect, ok func(font.Aspect) bool) []font.Aspect {
-	var out []font.Aspect
+	out := set[:0]
 	for _, a := range set {
 		if ok(a) {
 			out = append(out, a)
